@@ -100,4 +100,242 @@ theorem append_next (t : TokenStore) (m : Nat) (p : PriceTR) :
     simp [TokenStore.nextRoundID]
   · simp [hn]
 
+
+/-! ### one feeder's slice of the block machinery -/
+
+/-- the feeder's in-memory round and the stored NextRoundID of its token -/
+structure Sl where
+  round : Option Round
+  next : Nat
+deriving Repr, DecidableEq
+
+/-- a DeliverTx that finalizes the round (msg_server_create_price.go: AppendPriceTR, or
+GrowRoundID on an id mismatch — either way the stored id advances by one, `append_next` /
+`C12_grow_advances_by_one`); only an open round can be finalized (checkMsg). -/
+def slFinal (s : Sl) : Sl :=
+  match s.round with
+  | some r => if r.status = .open then { round := some { r with status := .closed }, next := s.next + 1 } else s
+  | none => s
+
+/-- context.go: SealRound + module.go: GrowRoundID for every failed token (feeder without EndBlock) -/
+def slSeal (mn h : Nat) (force : Bool) (s : Sl) : Sl :=
+  match s.round with
+  | some r =>
+    if r.status = .open && (h - r.basedBlock ≥ mn || force) then
+      { round := some { r with status := .closed }, next := s.next + 1 }
+    else s
+  | none => s
+
+/-- context.go: PrepareRoundEndBlock for this feeder (no EndBlock) -/
+def slPrepare (f : Feeder) (mn block : Nat) (s : Sl) : Sl :=
+  if f.startBaseBlock > block then s
+  else
+    let (left, based, nrid) := roundArith f block
+    match s.round with
+    | none =>
+      if left ≥ mn then { s with round := some { basedBlock := based, nextRoundID := nrid, status := .closed } }
+      else { s with round := some { basedBlock := based, nextRoundID := nrid, status := .open } }
+    | some r =>
+      if left = 0 then { s with round := some { basedBlock := based, nextRoundID := nrid, status := .open } }
+      else if r.status = .open && left ≥ mn then { s with round := some { r with status := .closed } }
+      else s
+
+/-- what happens in one block: does some transaction finalize the round, is the seal forced
+(validator-set change) -/
+structure BlockEv where
+  final : Bool
+  force : Bool
+
+/-- block `h`: transactions, then EndBlock = seal, then prepare -/
+def slBlock (f : Feeder) (mn h : Nat) (ev : BlockEv) (s : Sl) : Sl :=
+  slPrepare f mn h (slSeal mn h ev.force (if ev.final then slFinal s else s))
+
+/-- blocks b+1, b+2, … -/
+def slRun (f : Feeder) (mn : Nat) : Nat → List BlockEv → Sl → Sl
+  | _, [], s => s
+  | b, ev :: evs, s => slRun f mn (b + 1) evs (slBlock f mn (b + 1) ev s)
+
+/-- the invariant after EndBlock of block `b ≥ StartBaseBlock` -/
+def RoundInv (f : Feeder) (mn n0 b : Nat) (s : Sl) : Prop :=
+  ∃ r, s.round = some r ∧
+    r.basedBlock = b - (b - f.startBaseBlock) % f.interval ∧
+    r.nextRoundID = f.startRoundID + (b - f.startBaseBlock) / f.interval ∧
+    (r.status = .open → (b - f.startBaseBlock) % f.interval < mn) ∧
+    s.next = n0 + (b - f.startBaseBlock) / f.interval + (if r.status = .closed then 1 else 0)
+
+theorem succ_div_mod (d iv : Nat) (hiv : 0 < iv) :
+    ((d + 1) % iv = 0 → d % iv = iv - 1 ∧ (d + 1) / iv = d / iv + 1) ∧
+    ((d + 1) % iv ≠ 0 → (d + 1) % iv = d % iv + 1 ∧ (d + 1) / iv = d / iv) := by
+  have hd : iv * (d / iv) + d % iv = d := Nat.div_add_mod d iv
+  have hr : d % iv < iv := Nat.mod_lt d hiv
+  by_cases hc : d % iv + 1 < iv
+  · have e : d + 1 = iv * (d / iv) + (d % iv + 1) := by omega
+    have hm : (d + 1) % iv = d % iv + 1 := by
+      rw [e, Nat.mul_add_mod, Nat.mod_eq_of_lt hc]
+    have hq : (d + 1) / iv = d / iv := by
+      rw [e, Nat.mul_add_div hiv, Nat.div_eq_of_lt hc]; omega
+    constructor
+    · intro h0; omega
+    · intro _; exact ⟨hm, hq⟩
+  · have hc' : d % iv + 1 = iv := by omega
+    have e : d + 1 = iv * (d / iv + 1) := by rw [Nat.mul_add, Nat.mul_one]; omega
+    have hm : (d + 1) % iv = 0 := by rw [e]; exact Nat.mul_mod_right _ _
+    have hq : (d + 1) / iv = d / iv + 1 := by rw [e]; exact Nat.mul_div_cancel_left _ hiv
+    constructor
+    · intro _; exact ⟨by omega, hq⟩
+    · intro hne; exact absurd hm hne
+
+
+/-- status facts -/
+theorem status_cases (st : Status) : st = .open ∨ st = .closed := by cases st <;> simp
+
+/-- after the transactions and the seal of block b+1: still the round of base `b - left`, and if it
+is still open the *next* offset is inside the window -/
+def MidInv (f : Feeder) (mn n0 b : Nat) (s : Sl) : Prop :=
+  ∃ r, s.round = some r ∧
+    r.basedBlock = b - (b - f.startBaseBlock) % f.interval ∧
+    r.nextRoundID = f.startRoundID + (b - f.startBaseBlock) / f.interval ∧
+    (r.status = .open → (b - f.startBaseBlock) % f.interval + 1 < mn) ∧
+    s.next = n0 + (b - f.startBaseBlock) / f.interval + (if r.status = .closed then 1 else 0)
+
+theorem final_keeps (f : Feeder) (mn n0 b : Nat) (s : Sl) (h : RoundInv f mn n0 b s) :
+    RoundInv f mn n0 b (slFinal s) := by
+  obtain ⟨r, hr, hb, hn, ho, hx⟩ := h
+  unfold slFinal
+  rw [hr]
+  rcases status_cases r.status with hs | hs
+  · simp only [hs, if_true]
+    refine ⟨_, rfl, hb, hn, ?_, ?_⟩
+    · intro hc; cases hc
+    · simp [hs] at hx; simp; omega
+  · simp only [hs]
+    exact ⟨r, by simp [hr], hb, hn, ho, hx⟩
+
+theorem seal_gives_mid (f : Feeder) (mn n0 b : Nat) (force : Bool) (s : Sl) (hsb : f.startBaseBlock ≤ b)
+    (hiv : 0 < f.interval) (h : RoundInv f mn n0 b s) :
+    MidInv f mn n0 b (slSeal mn (b + 1) force s) := by
+  obtain ⟨r, hr, hb, hn, ho, hx⟩ := h
+  have hle : (b - f.startBaseBlock) % f.interval ≤ b := by
+    have := Nat.mod_le (b - f.startBaseBlock) f.interval; omega
+  unfold slSeal
+  rw [hr]
+  rcases status_cases r.status with hs | hs
+  · by_cases hc : (decide (b + 1 - r.basedBlock ≥ mn) || force) = true
+    · simp only [hs, hc, decide_true, Bool.and_self, if_true]
+      refine ⟨_, rfl, hb, hn, ?_, ?_⟩
+      · intro h'; cases h'
+      · simp [hs] at hx; simp; omega
+    · have hc' : (decide (b + 1 - r.basedBlock ≥ mn) || force) = false := by simpa using hc
+      simp only [hs, hc', decide_true, Bool.and_false, Bool.false_eq_true, if_false]
+      refine ⟨r, hr, hb, hn, ?_, hx⟩
+      intro _
+      simp only [Bool.or_eq_false_iff, decide_eq_false_iff_not] at hc'
+      have := hc'.1
+      rw [hb] at this
+      omega
+  · have : (decide (r.status = Status.open) && (decide (b + 1 - r.basedBlock ≥ mn) || force)) = false := by simp [hs]
+    simp only [this, Bool.false_eq_true, if_false]
+    refine ⟨r, hr, hb, hn, ?_, hx⟩
+    intro h'; rw [hs] at h'; cases h'
+
+theorem prepare_from_mid (f : Feeder) (mn n0 b : Nat) (s : Sl) (hsb : f.startBaseBlock ≤ b)
+    (hiv : mn < f.interval) (hmn : 1 ≤ mn) (h : MidInv f mn n0 b s) :
+    RoundInv f mn n0 (b + 1) (slPrepare f mn (b + 1) s) := by
+  obtain ⟨r, hr, hb, hn, ho, hx⟩ := h
+  have hiv0 : 0 < f.interval := by omega
+  have hd : b + 1 - f.startBaseBlock = (b - f.startBaseBlock) + 1 := by omega
+  have hsm := succ_div_mod (b - f.startBaseBlock) f.interval hiv0
+  have hle : (b - f.startBaseBlock) % f.interval ≤ b - f.startBaseBlock := Nat.mod_le _ _
+  have hlt : (b - f.startBaseBlock) % f.interval < f.interval := Nat.mod_lt _ hiv0
+  unfold RoundInv slPrepare
+  have hns : ¬ f.startBaseBlock > b + 1 := by omega
+  simp only [hns, if_false, roundArith, hr, hd]
+  by_cases h0 : ((b - f.startBaseBlock) + 1) % f.interval = 0
+  · obtain ⟨hl, hq⟩ := hsm.1 h0
+    simp only [h0, if_true]
+    refine ⟨_, rfl, ?_, ?_, ?_, ?_⟩
+    · simp
+    · simp only [hq]
+    · intro _; omega
+    · -- the previous round must be closed: otherwise left+1 < mn < interval contradicts left = interval-1
+      rcases status_cases r.status with hs | hs
+      · have := ho hs; omega
+      · simp only [hs, if_true] at hx
+        have : ¬ (Status.open = Status.closed) := by intro h'; cases h'
+        simp only [hq, this, if_false]; omega
+  · obtain ⟨hl, hq⟩ := hsm.2 h0
+    simp only [h0, if_false]
+    rcases status_cases r.status with hs | hs
+    · have hw := ho hs
+      have hnot : ¬ ((b - f.startBaseBlock) + 1) % f.interval ≥ mn := by omega
+      simp only [hs, decide_true, Bool.true_and, decide_eq_true_eq, hnot, if_false]
+      refine ⟨r, hr, ?_, ?_, ?_, ?_⟩
+      · rw [hb, hl]; omega
+      · rw [hn, hq]
+      · intro _; rw [hl]; exact hw
+      · rw [hx, hq]
+    · have : (decide (r.status = Status.open) && decide (((b - f.startBaseBlock) + 1) % f.interval ≥ mn)) = false := by simp [hs]
+      simp only [this, Bool.false_eq_true, if_false]
+      refine ⟨r, hr, ?_, ?_, ?_, ?_⟩
+      · rw [hb, hl]; omega
+      · rw [hn, hq]
+      · intro h'; rw [hs] at h'; cases h'
+      · rw [hx, hq]
+
+theorem block_step (f : Feeder) (mn n0 b : Nat) (ev : BlockEv) (s : Sl) (hsb : f.startBaseBlock ≤ b)
+    (hiv : mn < f.interval) (hmn : 1 ≤ mn) (h : RoundInv f mn n0 b s) :
+    RoundInv f mn n0 (b + 1) (slBlock f mn (b + 1) ev s) := by
+  unfold slBlock
+  apply prepare_from_mid f mn n0 b _ hsb hiv hmn
+  apply seal_gives_mid f mn n0 b ev.force _ hsb (by omega)
+  cases ev.final
+  · simpa using h
+  · simpa using final_keeps f mn n0 b s h
+
+theorem run_inv (f : Feeder) (mn n0 : Nat) (hiv : mn < f.interval) (hmn : 1 ≤ mn) (evs : List BlockEv) :
+    ∀ (b : Nat) (s : Sl), f.startBaseBlock ≤ b → RoundInv f mn n0 b s →
+      RoundInv f mn n0 (b + evs.length) (slRun f mn b evs s) := by
+  induction evs with
+  | nil => intro b s _ h; simpa [slRun] using h
+  | cons ev evs ih =>
+    intro b s hsb h
+    have := ih (b + 1) (slBlock f mn (b + 1) ev s) (by omega) (block_step f mn n0 b ev s hsb hiv hmn h)
+    simp only [slRun, List.length_cons]
+    have e : b + (evs.length + 1) = b + 1 + evs.length := by omega
+    rw [e]; exact this
+
+/-- the feeder's very first round: opened by the prepare step of its start block -/
+theorem start_inv (f : Feeder) (mn n0 : Nat) (hmn : 1 ≤ mn) :
+    RoundInv f mn n0 f.startBaseBlock (slPrepare f mn f.startBaseBlock { round := none, next := n0 }) := by
+  unfold slPrepare
+  have : ¬ f.startBaseBlock > f.startBaseBlock := by omega
+  have h0 : ¬ 0 ≥ mn := by omega
+  simp only [this, if_false, roundArith, Nat.sub_self, Nat.zero_mod, Nat.zero_div, h0]
+  exact ⟨_, rfl, by simp, by simp, by intro _; simp; omega, by simp⟩
+
+
+
+theorem run_ends_with_prepare (f : Feeder) (mn : Nat) (evs : List BlockEv) :
+    ∀ (ev : BlockEv) (b : Nat) (s : Sl), ∃ x, slRun f mn b (ev :: evs) s = slPrepare f mn (b + (ev :: evs).length) x := by
+  induction evs with
+  | nil => intro ev b s; exact ⟨slSeal mn (b + 1) ev.force (if ev.final then slFinal s else s), by simp [slRun, slBlock]⟩
+  | cons e2 t ih =>
+    intro ev b s
+    obtain ⟨x, hx⟩ := ih e2 (b + 1) (slBlock f mn (b + 1) ev s)
+    refine ⟨x, ?_⟩
+    have e : b + (ev :: e2 :: t).length = b + 1 + (e2 :: t).length := by simp only [List.length_cons]; omega
+    rw [e, ← hx]; rfl
+
+theorem prepare_open_at_zero (f : Feeder) (mn block : Nat) (x : Sl) (hmn : 1 ≤ mn)
+    (hsb : f.startBaseBlock ≤ block) (h0 : (block - f.startBaseBlock) % f.interval = 0) :
+    ∃ r, (slPrepare f mn block x).round = some r ∧ r.status = .open := by
+  unfold slPrepare
+  have hns : ¬ f.startBaseBlock > block := by omega
+  have hm : ¬ 0 ≥ mn := by omega
+  simp only [hns, if_false, roundArith, h0]
+  cases x.round with
+  | none => simp [hm]
+  | some r => simp
+
+
 end ExoVerif.Oracle
